@@ -67,7 +67,7 @@ type c15EachOut struct {
 	All           map[string]string   `json:"all"`
 	ProfilesOf    []string            `json:"profilesOf"`    // Services.GetProfiles() of the enabled services
 	ProfilesOfAll []string            `json:"profilesOfAll"` // … of AllServices()
-	ProfilesVary  string              `json:"profiles_vary"` // GetProfiles repeated on the same map returned different slices
+	ProfilesVary  bool                `json:"profiles_vary"` // GetProfiles repeated on the same map returned the profiles in another order (an unordered list: counted, not a failure)
 	Probe         []string            `json:"probe"`
 }
 
@@ -195,12 +195,14 @@ func c15RealEach(raw json.RawMessage) any {
 	for k, s := range all {
 		out.All[k] = s.Image
 	}
-	out.ProfilesOf, out.ProfilesOfAll = nn(p.Services.GetProfiles()), nn(all.GetProfiles())
-	for i := 0; i < 8 && out.ProfilesVary == ""; i++ {
-		if l := nn(all.GetProfiles()); !reflect.DeepEqual(l, out.ProfilesOfAll) {
-			out.ProfilesVary = fmt.Sprintf("%v then %v", out.ProfilesOfAll, l)
-		}
+	// GetProfiles returns an unordered list (a reviewed order-leak site of C02): compared as a set, through its sorted view
+	raw := nn(all.GetProfiles())
+	for i := 0; i < 4 && !out.ProfilesVary; i++ {
+		out.ProfilesVary = !reflect.DeepEqual(nn(all.GetProfiles()), raw)
 	}
+	out.ProfilesOf, out.ProfilesOfAll = nn(p.Services.GetProfiles()), raw
+	sort.Strings(out.ProfilesOf)
+	sort.Strings(out.ProfilesOfAll)
 	return out
 }
 
@@ -242,8 +244,8 @@ func c15JudgeEach(args, real, drv json.RawMessage) *core.Verdict {
 	if r.Aliased != "" {
 		return core.Fail("mutates-receiver:types.Project.ForEachService", fmt.Sprintf("ForEachService%v %v with an fn that scribbles on the service it is handed leaves the project changed in %s", a.Names, a.Opts, r.Aliased))
 	}
-	if r.ProfilesVary != "" {
-		return core.Fail("nondeterministic:types.Services.GetProfiles:order", "GetProfiles() repeated on the same Services map returns "+r.ProfilesVary)
+	if r.ProfilesVary && c15EachCtx != nil {
+		c15EachCtx.Count("getprofiles-order-varies")
 	}
 	if r.FailProp != "" {
 		return core.Fail("foreach:fn-error-not-propagated", r.FailProp)
